@@ -315,6 +315,14 @@ func (p *Path) iteValue(c *Term, a, b Value) Value {
 		if bv, ok := b.(FloatV); ok && av == bv {
 			return av
 		}
+	case TupleV:
+		if bv, ok := b.(TupleV); ok && len(av) == len(bv) {
+			out := make(TupleV, len(av))
+			for i := range av {
+				out[i] = p.iteValue(c, av[i], bv[i])
+			}
+			return out
+		}
 	case nil:
 		if b == nil {
 			return nil
